@@ -339,3 +339,182 @@ def run_entities(c, tier, seed, props=("roundtrip", "canon", "pyc")):
     c.notes["entity_fragment_correspondence"] = dist
     c.cov["traces_validated_against_impl"] += len(items)
     return dist
+
+
+# ---------------------------------------------------------------------------------------------------------
+# both fragments combined: headings whose lines contain entities (coq/MixFrag.v, driver `mixfrag`)
+
+def mix_inputs(tier, seed):
+    rng = random.Random(seed * 15485863 + 11)
+    out = []
+    top = 6 if tier == "quick" else 9
+    for n in range(0, top + 1):
+        for t in itertools.product(["=", "\n", "&lt;", "&", "a"], repeat=n):
+            s = "".join(t)
+            out.append(s)
+    ents = ["&amp;", "&lt;", "&#65;", "&#x41;", "&#X3c;", "&#0061;", "&#61;", "&#x3D;", "&#10;", "&", "&#", "&#x", "&amp", "&;", "&#;", "&bogus;", "&#1114112;", "&=", "&#=;",
+            "&amp=;", "#", ";", "x;", "#61;"]
+    other = ["a", "b", " ", "é", "中", "\U0001F600", "x", "0"]
+    n_rand = 20000 if tier == "quick" else 400000
+    for _ in range(n_rand):
+        parts = []
+        w = rng.choice([(3, 1, 3), (2, 1, 1), (5, 1, 2), (2, 2, 3)])
+        for _ in range(rng.randint(1, rng.choice([4, 8, 16, 30]))):
+            r = rng.random() * (w[0] + w[1] + w[2] + 3)
+            if r < w[0]:
+                parts.append("=" * rng.choice([1, 1, 2, 2, 3, 6, 7]))
+            elif r < w[0] + w[1]:
+                parts.append("\n")
+            elif r < w[0] + w[1] + w[2]:
+                parts.append(rng.choice(ents))
+            else:
+                parts.append(rng.choice(other))
+        out.append("".join(parts))
+    py, c = _depths()
+    for md in sorted({py, c}):
+        for k in (md - 3, md - 2, md - 1, md, md + 1):
+            for e in ("&amp;", "&", "&#61;"):
+                out.append("==" + (e + "==") * max(k, 0) + "t")
+                out.append("=" + ("x=" + e) * max(k, 0))
+    seen = set()
+    uniq = []
+    for s in out:
+        # no line may begin with a list marker
+        if any(ln[:1] in ("#", ";") for ln in s.split("\n")):
+            continue
+        if s not in seen:
+            seen.add(s)
+            uniq.append(s)
+    return uniq
+
+
+def _mshow(canon_tokens):
+    out = []
+    for t in canon_tokens:
+        if t[0] == "HeadingStart":
+            out.append("S%d" % int(dict(t[1:])["level"]))
+        elif t[0] == "HeadingEnd":
+            out.append("E")
+        else:
+            out.append(_eshow([t]))
+    return " ".join(out) or "-"
+
+
+def _mwork(items):
+    res = []
+    for s in items:
+        row = {}
+        for which in ("py", "c"):
+            r = tokharness.tokenize(which, s)
+            row[which] = _mshow(r[1]) if r[0] == "ok" else "EXC %s %s" % (r[1], r[2])
+        res.append(row)
+    return res
+
+
+def _mrender(shown):
+    if shown == "-":
+        return ""
+    out, lv = [], []
+    dec = lambda x: "".join(chr(int(v)) for v in x.split(".")) if x else ""  # noqa: E731
+    for t in shown.split(" "):
+        if t[0] == "T":
+            out.append(dec(t[1:]))
+        elif t[0] == "S":
+            lv.append(int(t[1:]))
+            out.append("=" * lv[-1])
+        elif t == "E":
+            out.append("=" * (lv.pop() if lv else 0))
+        elif t == "A":
+            out.append("&")
+        elif t == "N":
+            out.append("#")
+        elif t[0] == "X":
+            out.append(dec(t[1:]))
+        elif t == "Z":
+            out.append(";")
+        else:
+            return None
+    return "".join(out)
+
+
+def _mcanonical(shown):
+    """no empty Text; no two adjacent Text in one list (lists: top level, a heading's title, an entity's text)"""
+    if shown == "-":
+        return True
+    prev = [False]
+    for t in shown.split(" "):
+        if t == "T":
+            return False
+        if t[0] == "T":
+            if prev[-1]:
+                return False
+            prev[-1] = True
+        elif t in ("A",) or t[0] == "S":
+            prev[-1] = False
+            prev.append(False)
+        elif t in ("Z", "E"):
+            if len(prev) > 1:
+                prev.pop()
+            prev[-1] = False
+        else:
+            prev[-1] = False
+    return True
+
+
+def run_mixed(c, tier, seed, props=("roundtrip", "canon", "pyc")):
+    st = tokharness.setup()
+    items = mix_inputs(tier, seed)
+    py_md, c_md = _depths()
+    py_ms = int(getattr(st["py"], "MAX_ENTITY_SIZE", 8))
+    txt = open(os.path.join(vlib.VERIF, "coq", "gen", "Tables.v")).read()
+    c_ms = int(re.search(r"c_max_entity_size : N := (\d+)%N", txt).group(1))
+    real = vlib.robust_map(_mwork, items, chunk=512, timeout=240)
+    want = {}
+    for which, flag, ms, md in (("py", 1, py_ms, py_md), ("c", 0, c_ms, c_md)):
+        if which == "c" and st["c"] is None:
+            continue
+        lines = ["%d %d %d %s" % (flag, ms, md, " ".join(str(ord(ch)) for ch in s)) for s in items]
+        want[which] = vlib.model_run("mixfrag", lines)
+    dist = {"inputs": len(items), "with_heading": 0, "with_entity": 0, "entity_inside_heading": 0}
+    reported = 0
+    for i, s in enumerate(items):
+        row = real[i]
+        if not isinstance(row, dict):
+            c.fail("mixed-fragment input killed or hung the interpreter: %r" % (row,), {"text": s, "kind": "mixfrag"})
+            continue
+        c.cov["evaluations"] += 1
+        m = want["py"][i].split(" ")
+        dist["with_heading"] += "E" in m
+        dist["with_entity"] += "A" in m
+        depth = 0
+        for t in m:
+            if t[0] == "S":
+                depth += 1
+            elif t == "E":
+                depth -= 1
+            elif t == "A" and depth > 0:
+                dist["entity_inside_heading"] += 1
+                break
+        for which in want:
+            got = row[which]
+            if got == want[which][i] or reported >= 5:
+                continue
+            reported += 1
+            bad = None
+            if got.startswith("EXC"):
+                bad = "tokenizer raised: " + got
+            elif "roundtrip" in props and _mrender(got) != s:
+                bad = "token stream does not spell the input (renders %r)" % (_mrender(got),)
+            elif "canon" in props and not _mcanonical(got):
+                bad = "token stream has an empty Text or two adjacent Text tokens"
+            elif "pyc" in props and "c" in want and row.get("py") != row.get("c"):
+                bad = "Python and C token streams differ"
+            data = {"text": s, "kind": "mixfrag", "tokenizer": which, "model": want[which][i], "implementation": got}
+            if bad:
+                c.fail("%s tokenizer on %r: %s" % (which, s[:80], bad), data)
+            else:
+                c.fail("correspondence MixFrag.v / %s tokenizer broken on %r: model %s, implementation %s"
+                       % (which, s[:80], want[which][i][:120], got[:120]), data, found_input=False)
+    c.notes["mixed_fragment_correspondence"] = dist
+    c.cov["traces_validated_against_impl"] += len(items)
+    return dist
